@@ -65,7 +65,7 @@ struct Tiff final : public Storage
     int start() noexcept;
     int stop() noexcept;
     int append(const struct VideoFrame* frames, size_t nbytes) noexcept;
-    void write_(uint64_t offset, void* buf, size_t nbytes) noexcept;
+    int write_(uint64_t offset, void* buf, size_t nbytes) noexcept;
 
   private:
     void terminate_ifd_list() noexcept;
@@ -499,9 +499,11 @@ int
 Tiff::stop() noexcept
 {
     if (state == DeviceState_Running) {
+        // Leave the running state first: a failing write in
+        // terminate_ifd_list() ends up here again.
+        state = DeviceState_Armed;
         terminate_ifd_list();
         file_close(&file_);
-        state = DeviceState_Armed;
         frame_count_ = 0;
         LOG("TIFF: Writer stop");
     }
@@ -585,10 +587,11 @@ Tiff::append(const struct VideoFrame* frames, size_t nbytes) noexcept
                 align8(ifd_strings_.offset)
             };
 
-            // write
-            write_(section_ifd, &ifd, sizeof(ifd));
-            write_(section_data, (void*)cur->data, bytes_of_image);
-            write_(section_strings, ifd_strings_.data, ifd_strings_.size);
+            // write (a failed write has already stopped the writer)
+            CHECK(write_(section_ifd, &ifd, sizeof(ifd)));
+            CHECK(write_(section_data, (void*)cur->data, bytes_of_image));
+            CHECK(
+              write_(section_strings, ifd_strings_.data, ifd_strings_.size));
 
             // update markers
             last_ifd_next_offset_ = section_ifd + offsetof(ifdN_t, next);
@@ -603,15 +606,19 @@ Tiff::append(const struct VideoFrame* frames, size_t nbytes) noexcept
         return 0;
     }
     return 1;
+Error:
+    return 0;
 }
 
-void
+/// @returns 1 on success. On failure the writer is stopped and 0 is returned.
+int
 Tiff::write_(uint64_t offset, void* buf, size_t nbytes) noexcept
 {
     CHECK(file_write(&file_, offset, (uint8_t*)buf, (uint8_t*)buf + nbytes));
-    return;
+    return 1;
 Error:
     stop();
+    return 0;
 }
 
 enum DeviceState
